@@ -65,6 +65,22 @@ def collect(ctx: Ctx):
             extra = p + bytes(rng.randrange(256) for _ in range(rng.randint(1, 20)))
             vectors.append({"kind": "raw", "q": B(extra), "o": v2_oracle(extra), "res": result_of(_Packet.decode, extra), "frame": B(f)})
     vloop.VClock.base = clocks[0]
+    # a long life: more than 65,536 packets encoded by one process; every one must be produced, a sample of them is judged
+    n_long = ctx.pick(70000, 200000)
+    f = bytes(rng.randrange(256) for _ in range(20))
+    devid = rng.getrandbits(64)
+    d8 = devid.to_bytes(8, "little")
+    for k in range(n_long):
+        if k in (0, 255, 256, 65534, 65535, 65536, 65537, n_long - 1) or k % 9973 == 0:
+            res = result_of(_Packet.encode, devid, f)
+            vectors.append({"kind": "encode", "frame": B(f), "devid": B(d8), "res": res, "o": v2_oracle(bytes(res.get("f", []))), "via": f"encode #{k} of one process"})
+        else:
+            try:
+                _Packet.encode(devid, f)
+            except Exception as e:  # noqa: BLE001 - code under test
+                vectors.append({"kind": "encode", "frame": B(f), "devid": B(d8), "res": {"k": "raise", "exc": type(e).__name__}, "o": v2_oracle(b""),
+                                "via": f"encode #{k} of one process"})
+                break
     # through LAN.send on a V2 connection: wire bytes + returned frames
     net = vloop.Net(loop)
     wire = []
